@@ -92,6 +92,7 @@ def main() -> int:
                 rec["exit"] = int(session.exit_code)
                 rec["tasks"] = sorted(t.name.split("::")[-1] for t in session.tasks)
                 rec["reports"] = [[r.task.name.split("::")[-1], r.outcome.name] for r in session.execution_reports]
+                rec["n_warnings"] = len(getattr(session, "warnings", []) or [])
                 del session
             except BaseException as e:  # noqa: BLE001
                 rec["raised"] = f"{type(e).__name__}: {e}"
